@@ -6,7 +6,6 @@ import (
 	"github.com/orda-io/orda/client/pkg/iface"
 	"github.com/orda-io/orda/client/pkg/orda"
 
-	"github.com/orda-io/orda/server/constants"
 	"github.com/orda-io/orda/server/managers"
 	"github.com/orda-io/orda/server/schema"
 )
@@ -55,9 +54,13 @@ func (its *Manager) GetLatestDatatype() (iface.Datatype, uint64, errors.OrdaErro
 		if err = datatype.SetMetaAndSnapshot([]byte(snapshotDoc.Meta), snapshotDoc.Snapshot); err != nil {
 			return nil, 0, err
 		}
-		datatype.ResetWired()
 	}
-	opList, sseqList, err := its.managers.Mongo.GetOperations(its.ctx, its.datatypeDoc.DUID, lastSseq+1, constants.InfinitySseq)
+	// the datatype exists already, with or without a stored snapshot: the snapshot operation with which
+	// the local replica was created must not be pushed by PatchDocument (it would empty every replica)
+	datatype.ResetWired()
+	// only the committed part of the log: operations beyond the recorded end belong to a commit that
+	// was interrupted (they are rolled back by the next push) or is still going on
+	opList, sseqList, err := its.managers.Mongo.GetOperations(its.ctx, its.datatypeDoc.DUID, lastSseq+1, its.datatypeDoc.Sseq.End)
 	if err != nil {
 		return nil, 0, err
 	}
